@@ -46,6 +46,10 @@ def one(name, tier, workers):
         det = {}
         for c in props:
             rc, o = sh(f"./check {c} --tier {tier} --workers {workers}", cwd=V, env={"DFMC_REPO": scratch, "DFMC_FAILFAST": "1"})
+            if rc not in (0, 1):
+                # fail-fast cuts the run after the first round with a violation; a violation that depends on hidden
+                # library state may then lack the executions it needs to be confirmed: decide with the full run
+                rc, o = sh(f"./check {c} --tier {tier} --workers {workers}", cwd=V, env={"DFMC_REPO": scratch})
             sigs = re.findall(r"sig=(\S+) instances=(\d+)", o)
             det[c] = {"exit": rc, "violations": [f"{s} x{n}" for s, n in sigs][:6]}
         out["checks"] = det
